@@ -23,6 +23,8 @@ M = [
  ('displays a range as', 'C04', '`println(0..3)` printed `{0}..{3}` on the interpreter and `0..3` on the VM'),
  ('snapshot copies the element cells', 'C04', '`let s = [1,2,3]; for x in s { s[-1] = 9; println(x); }` printed 9 for the last element on the interpreter only'),
  ('no longer share one iteration cursor', 'C02', '`let s = 0..3; for x in s { for y in s { } }` never terminated on the interpreter (poll budget exceeded)'),
+ ('singleton extraction pushes the singleton once', 'C01', '`$S = { n: int }; fn get(self: $S) -> int { self.n } fn main() { get(); }` left one operand-stack slot per call (stack residue; 500 calls in a loop overflowed the stack limit)'),
+ ('trigger statement drops the result slot', 'C01', '`trigger cb at minute(5);` left a nil operand-stack slot per statement (stack residue at exit)'),
 ]
 log = subprocess.check_output(['git', '-C', '/repo', 'log', '--reverse', '--format=%h %s']).decode().splitlines()
 fixed, unmatched = [], []
